@@ -475,6 +475,8 @@ func init() {
 				}
 			}
 		},
-		Run: runXSchemaCase, // payload positions 1..4 are ENV STRUCTS XSCHEMA (ops ...) as in family structobj
+		// payload positions 1..4 are ENV STRUCTS XSCHEMA (ops ...) as in family structobj; only u / v / s operations occur,
+		// each evaluated twice on the same instance (c17_faults.go runC17Twice)
+		Run: runC17Twice(3, 4),
 	}
 }
